@@ -37,7 +37,25 @@ FileOk(f, o) ==
        /\ \A i \in DOMAIN o.out : ~IsClassMarker(o.out[i])
        /\ \A i \in DOMAIN o.err : ~IsClassMarker(o.err[i])
 
+(* how the documents are named on the command line                        *)
+(*   "files"                 -f f1 f2 ...                                   *)
+(*   "bucket_prefix"         -b bucket -p prefix        (default suffix)    *)
+(*   "bucket_prefix_suffix"  -b bucket -p prefix -s suffix                  *)
+(*   "bucket_key"            -b bucket -k key           (detect / inspect)  *)
+(*   "bucket_only"           -b bucket                                      *)
+(*   "none"                  nothing                                        *)
+(* detect / inspect need files, or a bucket with a prefix or a key; merge  *)
+(* needs files or a bucket (a missing prefix means the whole bucket).      *)
+UsageError(cmd, mode) ==
+  IF cmd = "merge" THEN mode = "none" ELSE mode \in {"bucket_only", "none"}
+
 (* merge command                                                           *)
+MergeRcMode(ds, allowIncomplete, nonStrict, mode) ==
+  IF UsageError("merge", mode) THEN 2
+  ELSE IF ~Accepts(ds, allowIncomplete) THEN 2
+  ELSE IF ~nonStrict /\ Expected(ds, TRUE).raisedAt # 0 THEN 2
+  ELSE 0
+
 MergeRc(ds, allowIncomplete, nonStrict) ==
   IF ~Accepts(ds, allowIncomplete) THEN 2
   ELSE IF ~nonStrict /\ Expected(ds, TRUE).raisedAt # 0 THEN 2
